@@ -10,7 +10,7 @@ LEAN_TARGETS = ["EtkVerif.Props.C14"]
 PANIC_FILES = ["etk-asm/src/asm.rs", "etk-asm/src/ops.rs", "etk-asm/src/ops/expression.rs", "etk-asm/src/ops/macros.rs",
                "etk-asm/src/ops/imm.rs", "etk-asm/src/ingest.rs", "etk-asm/src/parse/mod.rs", "etk-asm/src/parse/expression.rs",
                "etk-asm/src/parse/macros.rs", "etk-asm/src/parse/args.rs"]
-RULE = ("four streams, every request under catch_unwind in a child process with a 10 s wall-clock limit: (1) grammar-valid programs "
+RULE = ("[family `provisional`: fixed-width operands over backward labels whose distance grows after they were read, in/out of range at exactly one of the two distances] four streams, every request under catch_unwind in a child process with a 10 s wall-clock limit: (1) grammar-valid programs "
         "of all generator families with injected faults (division by zero, negative / oversized operands, forward out-of-range "
         "references, recursive and mis-applied macros, unknown names); (2) near-valid texts: token deletion, duplication, swap, "
         "truncation and character substitution applied to valid programs; (3) token soup over the assembler's vocabulary and raw "
@@ -48,7 +48,7 @@ def cases(rng, tier):
     G.setup()
     cs = []
     n = 120 if tier == "quick" else 2500
-    fams = [("layout", G.gen_layout), ("exprs", G.gen_exprs), ("range", G.gen_range), ("macros", G.gen_macros), ("emacros", G.gen_emacros),
+    fams = [("layout", G.gen_layout), ("exprs", G.gen_exprs), ("range", G.gen_range), ("provisional", G.gen_provisional), ("macros", G.gen_macros), ("emacros", G.gen_emacros),
             ("shrink", G.gen_shrink)]
     valid = family_cases(rng, fams, n // 4, faults=0.6)
     for c in valid:
